@@ -1725,7 +1725,74 @@ struct H {
             }
             return; // a sample, not exhaustive
         }
-        fprintf(stderr, "unknown enumeration '%s' (dw8, dw16, dw32, dw64)\n", what.c_str());
+        if (what.rfind("dwq", 0) == 0) {
+            // "dwq<W>-<M>": M million divide cases per shard built backwards from the answer: dividend = q * divisor + r with a
+            // divisor from a fixed pseudo-random stream (several shapes), a quotient whose half-word digits sit at the boundaries
+            // where the schoolbook digit estimate is too large by one or two (all-ones digits, 2^h, 2^h +- 1, random), and a
+            // remainder at either end of [0, divisor) - the operands a division's correction steps depend on, and which
+            // independent random operands reach with probability ~2^-32.
+            c.word            = atoi(what.c_str() + 3);
+            const unsigned tw = unsigned(c.word);
+            const size_t   dash = what.find('-');
+            const uint64_t n  = (dash == std::string::npos ? 1 : strtoull(what.c_str() + dash + 1, nullptr, 10)) * 1000000ULL;
+            const uint64_t mk = mask_bits(tw);
+            const unsigned h  = tw / 2;
+            const uint64_t hm = mask_bits(h);
+            uint64_t       x  = 0x9E3779B97F4A7C15ULL * (uint64_t(shard) + 1) + tw;
+            auto           next = [&x]() {
+                x ^= x << 13;
+                x ^= x >> 7;
+                x ^= x << 17;
+                return x;
+            };
+            c.dw = 2;
+            for (uint64_t i = 0; i < n; ++i) {
+                uint64_t r0 = next(), r1 = next(), r2 = next(), r3 = next();
+                uint64_t d  = r1 & mk;
+                switch (r0 & 7) {
+                    case 0: d >>= (r0 >> 8) % tw; break;                  // any magnitude
+                    case 1: d |= (1ULL << (tw - 1)); break;               // normalised
+                    case 2: d = (d & ~hm) | hm; break;                    // low half all ones
+                    case 3: d = (d & hm) | (hm << h); break;              // high half all ones
+                    case 4: d = (d | hm) & ~(hm << h) | (1ULL << (tw - 1)); break; // 0x8000..FFFF..
+                    default: break;
+                }
+                d &= mk;
+                if (d == 0) {
+                    d = 1;
+                }
+                auto digit = [&](uint64_t sel, uint64_t rnd) -> uint64_t {
+                    switch (sel & 7) {
+                        case 0: return hm;
+                        case 1: return hm - 1;
+                        case 2: return 0;
+                        case 3: return 1;
+                        case 4: return (1ULL << (h - 1));
+                        case 5: return (1ULL << (h - 1)) - 1;
+                        default: return rnd & hm;
+                    }
+                };
+                const uint64_t q = ((digit(r0 >> 16, r2 >> 7) << h) | digit(r0 >> 19, r2 >> 29)) & mk;
+                uint64_t       r;
+                switch ((r0 >> 24) & 7) {
+                    case 0: r = 0; break;
+                    case 1: r = d - 1; break;
+                    case 2: r = d - 1 - ((r3 & 0xFF) % d); break;
+                    case 3: r = (r3 & hm) % d; break;
+                    case 4: r = d - 1 - ((r3 & hm) % d); break;
+                    default: r = r3 % d; break;
+                }
+                const u128 num = u128(q) * u128(d) + u128(r);
+                c.a            = uint64_t(num >> tw) & mk;
+                c.b            = uint64_t(num) & mk;
+                c.c            = d;
+                if (pbt::exec_case_fast<H>(ctx, c) == pbt::Status::Fail) {
+                    return;
+                }
+            }
+            return;
+        }
+        fprintf(stderr, "unknown enumeration '%s' (dw8, dw16, dw32, dw64, dwq<W>-<M>)\n", what.c_str());
         exit(3);
     }
 };
